@@ -154,13 +154,15 @@ CHECKS = {
              'when the offending record was created, so that a defect of one timing class cannot hide one of another.',
         ref='DESIGN.md §4 C13'),
     'C08': dict(
-        technique='runtime monitoring: crash / hang / out-of-bounds oracle (process survival, panic location, watchdog with reproduction, feature-gated bounds probes at the unchecked reads, canary query) over grammar-derived and mutated hostile inputs',
+        technique='runtime monitoring: crash / hang / out-of-bounds oracle (process survival, panic location, watchdog with reproduction, feature-gated bounds probes at the unchecked reads, canary query) over grammar-derived and mutated hostile inputs; thorough tier adds the same live workload against an AddressSanitizer build of the worker (nightly -Zsanitizer=address)',
         text='Four workloads: 30 000 console command lines and data query expressions derived from the grammar and mutated (digit runs of 1-40 '
              'characters, huge hex, brackets nested up to 200 deep, unicode, NULs); ~1 300 live queries at a stop (out-of-range indices, inverted '
              'and huge slices, keys of wrong shape or arity, zero-sized types, and type casts aiming every collection type at poison pages: all-ones, '
              'self-referential, cyclic, huge lengths, pointer/len/cap triples, the last bytes before an unmapped page); the same through the console '
              'of the real bs in a pseudo-terminal; malformed DAP envelopes followed by a canary. Every input must end in a result or an error with the '
-             'process alive, the bounds probes silent and the canary answering. Held after the nine fix commits.',
+             'process alive, the bounds probes silent and the canary answering. Held after the nine fix commits. Thorough tier (or VERIF_ASAN=1) rebuilds '
+             'the worker with AddressSanitizer and repeats the live queries: any report (heap overflow, use after free, SEGV) is a violation keyed by '
+             'error kind and first BugStalker frame; a scratch over-read in scalar_from_bytes was reported at once, the unchanged tree is silent.',
         note='A crash is keyed by its panic location, a hang counts only if it reproduces on a fresh worker, other watchdog expiries are inconclusive. '
              'Evidence reports probe evaluations (millions per run) to show that the unchecked reads are reached.',
         ref='DESIGN.md §4 C08'),
